@@ -5,6 +5,7 @@ from .._adapter.adapter import AdapterContext
 from .._change import Change
 from .._change import Delete
 from .._change import DictInsert
+from .._exceptions import UsageError
 from .._global_state import state
 from .._inline_snapshot import UndecidedValue
 from .._sentinels import undefined
@@ -15,6 +16,15 @@ class DictValue(GenericValue):
     _current_op = "snapshot[key]"
 
     def __getitem__(self, index):
+
+        if self._old_value is not undefined and (
+            not isinstance(self._old_value, dict)
+            or not isinstance(self._ast_node, (ast.Dict, type(None)))
+            or (self._ast_node is not None and None in self._ast_node.keys)
+        ):
+            raise UsageError(
+                "snapshot[key] can only be used with an empty snapshot() or a dict display like snapshot({...}) without **"
+            )
 
         if self._new_value is undefined:
             self._new_value = {}
@@ -63,6 +73,10 @@ class DictValue(GenericValue):
     def _get_changes(self) -> Iterator[Change]:
 
         assert self._old_value is not undefined
+
+        if self._new_value is undefined:
+            # the only snapshot[key] raised
+            return
 
         if self._ast_node is None:
             values = [None] * len(self._old_value)
